@@ -70,6 +70,18 @@ CHECKS["C13"] = dict(
     note="Assumptions of C14 plus type.__subclasses__ and dict.fromkeys contracts; clear() resets the universe of instances; no instance dies between "
          "the sweep and the consumption of the generator; the cached domain on re-evaluation of one query object is C03's finding.",
 )
+CHECKS["C18"] = dict(
+    category="proof",
+    technique="contract-based deductive verification: round-trip lemma by structural induction over contracts of to_json/from_json (real ast, lists of any length, z3 + cvc5 for the tag string obligation)",
+    text="Base and step cases of from_json(loads(dumps(to_json(v)))) == v are generated from the real function bodies: leaves pass through, "
+         "a list of ANY length maps to a list of the same length element-wise in order both ways (recursive calls by induction hypothesis), "
+         "the base to_json writes module + '.' + name of the exact class and from_json hands over to _from_json of exactly that class "
+         "(string obligation: rsplit inverts the concatenation, discharged by cvc5), registered types go through the serializer registered "
+         "for exactly their type (uuid pair registered by the module), create_engine installs the composed functions. "
+         "Bounded stand-in (not counted): real json.dumps/loads on a corpus incl. unicode, 10**300, +-inf, nested lists, the test subclasses.",
+    note="Assumed: json.loads(json.dumps(j)) == j on JSON values (NaN excluded), uuid.UUID(str(u)) == u, importlib resolves module-level classes, "
+         "user subclasses call super().to_json() and satisfy their own _from_json contract; all spot-validated natively on every run.",
+)
 NOT_APPLICABLE = {
     "C05": "decided by SQLAlchemy/SQLite semantics acting on generated code; no krrood function body carries it, so no contract within reach can express it (DESIGN.md §4)",
 }
